@@ -334,13 +334,14 @@ func repoReach(p *Program, f *ssa.Function) map[*ssa.Function]bool {
 }
 
 // blockingResources checks, for every channel-token send and mutex lock in fns:
-//   pairRule: every path from the acquisition to a return passes the release (or
-//             a deferred release exists) — a token or lock leaked on one exit
-//             starves every later acquirer;
-//   holdRule: while it is held, no call can reach another acquisition of the
-//             same resource — a recursive walk that keeps its token while it
-//             waits for its children deadlocks once the nesting exceeds the
-//             capacity (for a mutex: at once).
+//
+//	pairRule: every path from the acquisition to a return passes the release (or
+//	          a deferred release exists) — a token or lock leaked on one exit
+//	          starves every later acquirer;
+//	holdRule: while it is held, no call can reach another acquisition of the
+//	          same resource — a recursive walk that keeps its token while it
+//	          waits for its children deadlocks once the nesting exceeds the
+//	          capacity (for a mutex: at once).
 func blockingResources(c *Check, pairRule, holdRule string, fns map[*ssa.Function]bool) int {
 	p := c.P
 	var list []*ssa.Function
